@@ -172,7 +172,8 @@ pub fn main(args: &[String]) {
     // small moduli: all NTT-friendly primes below a bound for N = 2..64
     for logn in 1..=(if quick { 5 } else { 6 }) {
         let m = 2u64 << logn;
-        let ps = primes_1_mod(m, m + 1, 16384, if quick { 4 } else { 12 });
+        // (degree 64: TLC needs about 12 minutes per modulus for the 1 240 transforms of 64 points - three moduli)
+        let ps = primes_1_mod(m, m + 1, 16384, if quick { 4 } else if logn >= 6 { 3 } else { 12 });
         for q in ps {
             if let Some(e) = small_event(logn, q, &mut rng) {
                 println!("{}", json!({"ev": "big", "facts": [e]}));
